@@ -1,6 +1,6 @@
 (* C04 — watch continuity: events keep flowing across reconnects without a
    relist.  Property theorems only. *)
-From KC Require Import Base Cache Watcher WatcherProps.
+From KC Require Import Base Cache Watcher WatcherProps WatcherBurst.
 
 (* after every sequence of server changes, deliveries, stream closes, connect
    errors, non-object frames, buffer overflows, reconnects, relists and
@@ -41,6 +41,14 @@ Theorem C04_loss_needs_full_buffer : forall s a s', wstep s a = Some s' -> w_los
   (a = WDeliver /\ length (w_sbuf s) >= w_cap s) \/ (a = WTake /\ length (w_obuf s) >= w_cap s).
 Proof. exact loss_needs_full_buffer. Qed.
 Print Assumptions C04_loss_needs_full_buffer.
+
+(* with the controller busy, exactly the first EventBufsiz entries that arrive
+   after the one it holds survive in the watcher's channel; the other k - cap
+   are lost (the history the correspondence replays on the implementation) *)
+Theorem C04_busy_burst_closed_form : forall cap k, 1 <= cap ->
+  busy_burst_outcome cap k = (wseq 0 (1 + Nat.min k cap), k - cap).
+Proof. exact busy_burst_closed_form. Qed.
+Print Assumptions C04_busy_burst_closed_form.
 
 (* when the server quiesces and the library has nothing left to do, the
    controller has applied the whole log: no relist needed *)
